@@ -18,15 +18,18 @@ def main():
     exec(open(os.path.join(T.VERIF, "tools", "manifest_entries.py")).read(), {"check": check, "PENDING": {}})
     dirs = sorted({m for ms in CHECKS.values() for m in ms if os.path.isdir(os.path.join(T.SPECS, m))})
     mods = [f for d in dirs for f in sorted(glob.glob(os.path.join(T.SPECS, d, "*.tla")))]
-    for m in mods:
+    from concurrent.futures import ThreadPoolExecutor
+
+    def parse(m):
         d, f = os.path.split(m)
-        if os.path.basename(d) == "common":
-            continue
-        ok, out = T.sany(d, f[:-4])
-        if not ok:
-            bad += 1
-            print("SANY FAILED", m)
-            print(out[-2000:])
+        return (m,) + T.sany(d, f[:-4])
+
+    with ThreadPoolExecutor(max_workers=8) as ex:
+        for m, ok, out in ex.map(parse, mods):
+            if not ok:
+                bad += 1
+                print("SANY FAILED", m)
+                print(out[-2000:])
     print("selftest: %d modules parsed, %d failed" % (len(mods), bad))
     if bad:
         return 2
